@@ -199,14 +199,8 @@ func execRunFull(spec *OpSpec, call *Call, order *simrt.OrderSource, budget int6
 	before := argHashes(args)
 	lens := [2]int{len(args.IDs), len(args.IDs2)}
 	t0 := time.Now()
-	simrt.SetRunOrder(order)
-	simrt.SetStepBudget(budget)
-	simrt.Active = true
-	res := guard(func() Result { return spec.Exec(call, args) })
-	simrt.Active = false
-	simrt.SetRunOrder(nil)
-	out := runOutcome{res: res, order: order, duration: time.Since(t0), aborted: simrt.Aborted, steps: simrt.Steps}
-	simrt.SetStepBudget(0)
+	res, aborted, steps := runUnderScheduler(order, budget, func() Result { return spec.Exec(call, args) })
+	out := runOutcome{res: res, order: order, duration: time.Since(t0), aborted: aborted, steps: steps}
 	after := argHashes(args)
 	for i := range before {
 		if before[i] != after[i] {
@@ -813,4 +807,39 @@ func replayC16(raw json.RawMessage) (string, string, error) {
 		return "", "other clauses violated: " + fmt.Sprint(ks), nil
 	}
 	return "", "", nil
+}
+
+// runUnderScheduler executes one library call as the single root task of a scheduler without
+// preemptions. Goroutines the library starts become further tasks that run when the caller
+// blocks, waits or finishes (deterministically, in creation order) - so a child that needs a
+// mutex its parent still holds waits for it instead of deadlocking the process, as it would
+// if it were simply run inline at the go statement. With blocking constructs the simulator
+// does not own (simrt.RealGo) the call runs outside the scheduler on real goroutines.
+func runUnderScheduler(order *simrt.OrderSource, budget int64, f func() Result) (res Result, aborted bool, steps int64) {
+	if simrt.RealGo {
+		simrt.SetRunOrder(order)
+		simrt.SetStepBudget(budget)
+		simrt.Active = true
+		res = guard(f)
+		simrt.Active = false
+		simrt.SetRunOrder(nil)
+		aborted, steps = simrt.Aborted, simrt.Steps
+		simrt.SetStepBudget(0)
+		return
+	}
+	s := simrt.NewSched(nil)
+	s.AbortYields = int(budget)
+	s.AddTask(func() {
+		simrt.CallDepth(1)
+		res = guard(f)
+		simrt.CallDepth(0)
+	}, order)
+	simrt.Active = true
+	ok := s.Run(60 * time.Second)
+	simrt.Active = false
+	if !ok || s.Deadlock {
+		// stalled or deadlocked among simulated primitives: no result to compare
+		return Result{Panic: "run did not finish (stalled or deadlocked)"}, true, int64(s.YieldN)
+	}
+	return res, s.Overrun, int64(s.YieldN)
 }
